@@ -472,6 +472,7 @@ type Contract struct {
 	Asserts  []*Clause
 	Pure     bool
 	Updates  []string          // ghost variables the function may change
+	HasUpd   bool              // an `updates` clause is present (possibly `updates nothing`): all other ghosts are preserved
 	Inits    map[string]SExpr  // ghost variables initialised at entry of this function (verification only)
 	Implements []string        // function-type roles whose contract this function must also satisfy
 	Trusted  bool // contract is assumed, the body is not verified against it (listed in the evidence)
@@ -493,11 +494,12 @@ type SpecFile struct {
 	Ghosts    map[string]string    // ghost global name -> type
 	GhostList []string
 	TypeInvs  map[string]string // named struct type -> spec function (type invariant)
+	ModSets   map[string][]string // named lists of modifies locations
 	NonNilElems map[string]bool // element types (as written) whose occurrences inside slices and maps are never nil
 }
 
 func newSpecFile() *SpecFile {
-	return &SpecFile{Funcs: map[string]*SpecFunc{}, Contracts: map[string]*Contract{}, FuncTypes: map[string]*Contract{}, Ghosts: map[string]string{}, TypeInvs: map[string]string{}, NonNilElems: map[string]bool{}}
+	return &SpecFile{Funcs: map[string]*SpecFunc{}, Contracts: map[string]*Contract{}, FuncTypes: map[string]*Contract{}, Ghosts: map[string]string{}, TypeInvs: map[string]string{}, NonNilElems: map[string]bool{}, ModSets: map[string][]string{}}
 }
 
 // parseLabel parses "[C12,C01] name: rest" prefix pieces.
@@ -615,6 +617,20 @@ func (sf *SpecFile) load(path string) error {
 			sf.Ghosts[fs[0]] = fs[1]
 			sf.GhostList = append(sf.GhostList, fs[0])
 			cur = nil
+		case "modset":
+			// modset name = loc, loc, ...
+			eq := strings.Index(rest, "=")
+			if eq < 0 {
+				return fail(fmt.Errorf("modset name = locations"))
+			}
+			var ls []string
+			for _, m := range splitTop(rest[eq+1:]) {
+				if m = strings.TrimSpace(m); m != "" {
+					ls = append(ls, m)
+				}
+			}
+			sf.ModSets[strings.TrimSpace(rest[:eq])] = ls
+			cur = nil
 		case "eleminv":
 			// eleminv nonnil T1 T2 ...
 			fs := strings.Fields(rest)
@@ -728,6 +744,10 @@ func (sf *SpecFile) load(path string) error {
 			} else {
 				for _, m := range splitTop(rest) {
 					m = strings.TrimSpace(m)
+					if ms, ok := sf.ModSets[m]; ok {
+						cur.Modifies = append(cur.Modifies, ms...)
+						continue
+					}
 					if m != "" && m != "nothing" {
 						cur.Modifies = append(cur.Modifies, m)
 					}
@@ -743,8 +763,9 @@ func (sf *SpecFile) load(path string) error {
 			if cur == nil {
 				return fail(fmt.Errorf("clause outside func"))
 			}
+			cur.HasUpd = true
 			for _, g := range strings.Split(rest, ",") {
-				if g = strings.TrimSpace(g); g != "" {
+				if g = strings.TrimSpace(g); g != "" && g != "nothing" {
 					cur.Updates = append(cur.Updates, g)
 				}
 			}
@@ -805,6 +826,9 @@ func (sf *SpecFile) resolveImplements() error {
 			}
 			c.Requires = append(append([]*Clause{}, ft.Requires...), c.Requires...)
 			c.Ensures = append(append([]*Clause{}, ft.Ensures...), c.Ensures...)
+			if ft.HasUpd {
+				c.HasUpd = true
+			}
 			for _, u := range ft.Updates {
 				dup := false
 				for _, v := range c.Updates {
